@@ -220,6 +220,13 @@ def r07_3(chk):
             ok = not probs and got.get('inc') == 'inc' and got.get('size') == 'size' and got.get('col0') == pv + '.col_start'
     chk.ob('R07.3', ok, ASSEMBLY, 'PanelAssembly.calc_fext', 'per panel: inc forwarded, own column offset, global size', got=got,
            sample='PanelAssembly.calc_fext -> p.calc_fext(%s)' % got)
+    if len(loops) == 1 and ok:
+        # every panel contributes whatever kind of load it carries (point, incremental, distributed, pre-load)
+        skips = [norm(n)[:50] for n in ast.walk(loops[0]) if isinstance(n, (ast.Continue, ast.Break))]
+        cond = [norm(t)[:60] for t, pol in pyrules.enclosing_tests(loops[0], calls[0])]
+        chk.ob('R07.3', not skips and not cond, ASSEMBLY, 'PanelAssembly.calc_fext', 'every panel contributes', line=loops[0].lineno,
+               expected='the per-panel calc_fext call is unconditional (only a raise on undefined offsets may precede it)', got=skips + cond,
+               detail='' if not (skips or cond) else 'the load vector of the panels for which the condition holds never reaches the global vector')
 
 
 def r07_4(chk, u3, rel3):
